@@ -93,10 +93,13 @@ Definition ex_centre_geo : geo :=
     [].
 Lemma ex_centre_facts : wf ex_centre_geo = true /\ nwf ex_centre_geo = true /\ res_str_eqb (write (canon ex_centre_geo)) (write ex_centre_geo) = false.
 Proof. split; [|split]; vm_compute; reflexivity. Qed.
+Lemma res_str_eqb_neq a b : res_str_eqb a b = false -> a <> b.
+Proof.
+  intros H E. subst b. assert (R : res_str_eqb a a = true) by (destruct a as [s|e]; [apply str_eqb_refl|destruct e; reflexivity]).
+  rewrite R in H. discriminate.
+Qed.
 Theorem write_idem_refuted : exists g, wf g = true /\ nwf g = true /\ write (canon g) <> write g.
 Proof.
-  exists ex_centre_geo. destruct ex_centre_facts as [A [B C]]. repeat split; try assumption.
-  intro E. rewrite E in C.
-  assert (R : forall a, res_str_eqb a a = true) by (intros [s|e]; [apply str_eqb_refl|destruct e; reflexivity]).
-  rewrite R in C. discriminate.
+  exists ex_centre_geo. destruct ex_centre_facts as [A [B C]]. split; [exact A|]. split; [exact B|].
+  exact (res_str_eqb_neq _ _ C).
 Qed.
